@@ -161,6 +161,23 @@ def sched_preempt_two_upstream(tier, fam="F-sched-preempt-block3", opts=("resume
     return out
 
 
+def sched_preempt_classchange_block(tier, fam="F-sched-preempt-ccm-block"):
+    """pre-emptive schedule + after-service class change that alters the priority + a full destination: a blocked
+    customer already carries its NEW class/priority when its server is withdrawn and returns"""
+    ccm = {"A": {"A": 0.5, "B": 0.5}, "B": {"A": 0.5, "B": 0.5}}
+    out = []
+    for opt in ("resume", "restart", "resample"):
+        for pre in (False, "resume"):
+            nk = {"preempt": pre} if pre else {}
+            out.append(cfg("sched %s + ccm prio + block, prio-preempt=%s" % (opt, pre), fam,
+                           [node(c={"sched": {"numbers": [1, 0], "ends": [2.0, 3.0], "preempt": opt}}, class_change=ccm, **nk), node(c=1, cap=0)],
+                           {"A": klass([{"values": [0.5, 1.0], "budget": 3}, {"values": [0.25], "budget": 1}], [[1.0, 0.5], [3.0, 4.0]], prio=0,
+                                       route=matrix([[0.0, 1.0], [0.0, 0.0]])),
+                            "B": klass([None, None], [[1.0, 0.5], [3.0, 4.0]], prio=1, route=matrix([[0.0, 1.0], [0.0, 0.0]]))},
+                           K=3, T=16.0, D=6 if tier == "quick" else 9, features=["blocking", "schedule", "preempt_sched", "ccm", "priorities"]))
+    return out
+
+
 def mixed_tandem(tier, fam="F-mixed-tandem", kinds=("inf", "sched", "slotted", "slotted-cap", "ps", "c=2"), c2=(1, 2)):
     """a node of every kind feeding an ordinary finite-server node where customers have to wait: whatever a visit
     leaves on the customer (server marker, service time, flags) meets the ordinary accept/start path"""
